@@ -513,6 +513,9 @@ func runCheck(id, tier, work string) int {
 		}
 	}
 	ledgerPath := filepath.Join(verifDir, "known-findings.txt")
+	if alt := os.Getenv("VERIF_LEDGER"); alt != "" {
+		ledgerPath = alt // development aid: triage with another ledger
+	}
 	lb, err := os.ReadFile(ledgerPath)
 	if err != nil {
 		infra("ledger: %v", err)
